@@ -80,7 +80,7 @@ _BASE_FRAGMENTS = [
     "-", "+", " ", "\n", "\r", "\r\n", "raw", "endraw", "if", "x", "'", '"', "(", ")", "[", "]", "|", ".", "1",
     "for", "in", "endfor", "set", "=", "block", "endblock", "macro", "endmacro", "call", "filter", "{", "}", ",",
     ":", "~", "*", "is", "not", "else", "elif", "endif", "with", "include", "import", "from", "extends",
-    "autoescape", "trans", "loop", "super", "1.", "0x", "_", "é", "\\",
+    "autoescape", "trans", "loop", "super", "1.", "0x", "_", "é", "\\", "\u0d70",
 ]
 
 
@@ -379,6 +379,8 @@ TROUBLE_IDENTS = [
     # non-ASCII (NFKC-stable) and unusual but valid identifiers
     "é", "naïve", "переменная", "变量", "x1", "_x", "X", "x_", "ß", "Ω",
 ]
+# lexed as names by the name pattern but not identifiers (digits / marks / numerics of other scripts; NFKC-stable)
+WEIRD_NAMES = ["\u0663", "\u0663x", "\u0300a", "\u0d70", "x\u0d70", "\u09e7", "\u00b7x", "x\u00b7", "\u212e", "a\u203fb"]
 FILTERS = [
     "e", "upper", "lower", "trim", "default", "d", "length", "join", "list", "first", "last", "int", "float", "string",
     "safe", "escape", "abs", "attr", "batch", "capitalize", "center", "count", "dictsort", "filesizeformat",
@@ -444,6 +446,8 @@ class _Gen:
 
     def ident(self):
         k = self.c(8)
+        if k == 7 and self.p(1, 3):
+            return self.pick(WEIRD_NAMES)
         if k < 4:
             v = self.pick(SIMPLE_IDENTS)
         elif k < 6 and self.seen:
@@ -827,7 +831,7 @@ INJECT = _OTHER_DELIMS + [
     "endwith", "include", "import", "from", "as", "extends", "autoescape", "endautoescape", "trans", "endtrans", "pluralize",
     "do", "break", "continue", "debug", "recursive", "scoped", "required", "ignore", "missing", "context", "without",
     "0x", "1.", "1e", "0b1", "1_0", "09", "1__0", "0_", ".5", "1.e1", "0X1F", "1j", "\x00", " ", "\x85", "﻿", "é",
-    "\x0b", "\x0c", "\t", "\\N{", "\\x", "\\u12", "'''", '"""', "@", "$", "`", "?", "^", "&", "<<", "**", "//", "->", ":=",
+    "\x0b", "\x0c", "\t", "\\N{", "\\x", "\\u12", "\u0663", "\u0d70", "\u0300", "\u00b7", "'''", '"""', "@", "$", "`", "?", "^", "&", "<<", "**", "//", "->", ":=",
 ]
 
 
